@@ -101,11 +101,10 @@ Section Statements.
     exists pre post, names r' = pre ++ filter (fun n => memp n inds) (names r) ++ post.
   Proof. exact (join_block_contiguous E zero is_zero mk_cov). Qed.
 
-  (* every variance is preserved — guard: no fill value, or the variable is not joined, or its variance
-     is not literally 0 (see Refuted.join_variances_refuted) *)
+  (* every variance is preserved, unconditionally (full strength since fix a9c876f: the fill value is no
+     longer written on the diagonal) *)
   Theorem join_variances : forall inds fill tmpl (r r' : coll E) ps (x : id),
     wf E r = true -> join E zero is_zero mk_cov inds fill tmpl r = Ok (r', ps) -> In x (names r) ->
-    (is_zero fill = true \/ ~ In x inds \/ forall e, variance E zero r x = Some e -> is_zero e = false) ->
     variance E zero r' x = variance E zero r x.
   Proof. exact (join_variances_lemma E zero is_zero mk_cov). Qed.
 
@@ -208,19 +207,25 @@ Section Statements.
     forall a b, In a (dnames d') -> In b (dnames d') -> dcov E zero d' a b = dcov E zero d a b.
   Proof. exact (dget_list_lemma E zero). Qed.
 
-  (* ---------------- + ---------------- *)
-  Theorem add_names : forall (r r2 : coll E), names (add_coll E r r2) = names r ++ names r2.
-  Proof. exact (names_app E). Qed.
+  (* ---------------- + (since fix 1b723c6 through create: unique names or ValueError) ---------------- *)
+  Theorem add_names : forall (r r2 r' : coll E), add_coll E r r2 = Ok r' -> names r' = names r ++ names r2.
+  Proof. exact (add_names_lemma E). Qed.
 
-  Theorem add_keeps_cov : forall (r r2 : coll E) (x y : id),
-    NoDup (names (add_coll E r r2)) -> In x (names r) -> In y (names r) ->
-    cov E zero (add_coll E r r2) x y = cov E zero r x y.
-  Proof. exact (add_cov_left E zero). Qed.
+  Theorem add_error_iff : forall (r r2 : coll E), add_coll E r r2 = Err ValueError <-> ~ NoDup (names (r ++ r2)).
+  Proof. exact (add_coll_error E). Qed.
 
-  Theorem add_cross_zero : forall (r r2 : coll E) (x y : id),
-    NoDup (names (add_coll E r r2)) -> In x (names r) -> In y (names r2) ->
-    cov E zero (add_coll E r r2) x y = Some zero /\ cov E zero (add_coll E r r2) y x = Some zero.
-  Proof. exact (add_cov_cross E zero). Qed.
+  Theorem add_keeps_cov : forall (r r2 r' : coll E) (x y : id),
+    add_coll E r r2 = Ok r' -> In x (names r) -> In y (names r) -> cov E zero r' x y = cov E zero r x y.
+  Proof. exact (add_keeps_cov_lemma E zero). Qed.
+
+  Theorem add_cross_zero : forall (r r2 r' : coll E) (x y : id),
+    add_coll E r r2 = Ok r' -> In x (names r) -> In y (names r2) ->
+    cov E zero r' x y = Some zero /\ cov E zero r' y x = Some zero.
+  Proof. exact (add_cross_zero_lemma E zero). Qed.
+
+  Theorem add_preserves_wf : forall (r r2 r' : coll E),
+    wf E r = true -> wf E r2 = true -> add_coll E r r2 = Ok r' -> wf E r' = true.
+  Proof. exact (add_coll_wf E). Qed.
 End Statements.
 
 (* ================================ numeric side ==================================================== *)
@@ -316,32 +321,19 @@ Theorem corr_inverse :
 Proof. exact corr_inverse_lemma. Qed.
 
 (* UCP round trip for a covariance matrix: with L the Cholesky factor (oracle: lower triangular), the
-   scale computed by _scale_matrix and all UCPs equal to 0.1, _descale_matrix gives back L L^T —
-   guard: the entries of L below the diagonal are non-negative (see Refuted.ucp_inverse_refuted) *)
+   scale computed by _scale_matrix and all UCPs equal to 0.1, _descale_matrix gives back L L^T — for every
+   sign of the entries of L (full strength since fix 859061b: the scale keeps 10 * L_ij signed) *)
 Theorem ucp_inverse :
   forall (U L : list (list R)) (i j : nat),
     length U = length L ->
     (forall a b, a < b -> b < length L -> fget R 0%R L a b = 0%R) ->
     (forall k, k < length L -> fget R 0%R U k k = (/ 10)%R) ->
-    (forall a b, b < a -> a < length L ->
-       (fget R 0%R U a b = (/ 10)%R /\ (0 <= fget R 0%R L a b)%R) \/ fget R 0%R L a b = 0%R) ->
-    i < length L -> j < length L ->
-    fget R 0%R (descale_matrix R 0%R Rplus Rmult exp U
-                  (scale_matrix R 0%R Rplus Rminus Rmult Rdiv exp Rabs 10%R (/ 10)%R L)) i j =
-    fget R 0%R (mmul R 0%R Rplus Rmult L (transpose R 0%R L)) i j.
-Proof. exact ucp_inverse_lemma. Qed.
-
-(* what the code computes in general: L with the absolute values of its sub-diagonal entries *)
-Theorem ucp_general :
-  forall (U L : list (list R)) (i j : nat),
-    length U = length L ->
-    (forall k, k < length L -> fget R 0%R U k k = (/ 10)%R) ->
     (forall a b, b < a -> a < length L -> fget R 0%R U a b = (/ 10)%R \/ fget R 0%R L a b = 0%R) ->
     i < length L -> j < length L ->
     fget R 0%R (descale_matrix R 0%R Rplus Rmult exp U
-                  (scale_matrix R 0%R Rplus Rminus Rmult Rdiv exp Rabs 10%R (/ 10)%R L)) i j =
-    fget R 0%R (mmul R 0%R Rplus Rmult (absoff L) (transpose R 0%R (absoff L))) i j.
-Proof. exact ucp_general_lemma. Qed.
+                  (scale_matrix R 0%R Rplus Rminus Rmult Rdiv exp 10%R (/ 10)%R L)) i j =
+    fget R 0%R (mmul R 0%R Rplus Rmult L (transpose R 0%R L)) i j.
+Proof. exact ucp_inverse_lemma. Qed.
 
 (* UCP round trip for a bounded fixed effect: from_ucp(scale(init), 0.1) = init *)
 Theorem theta_ucp_inverse :
